@@ -229,6 +229,110 @@ class Sl(Seg):
         return Sl(self.base, self.lo + lo, self.lo + hi)
 
 
+class BC(Seg):
+    """BigConcat: elem(lo) || elem(lo+1) || ... || elem(hi-1) for symbolic bounds.
+    `elem(j)` returns a Rope (called with a z3 Int term j only when an element has to be
+    materialised); `elem_len(j)` its length term.  The total length is the uninterpreted sum
+    SUM|sig(lo, hi), keyed by the *length function*, with its defining facts instantiated where used:
+      hi <= lo => SUM = 0;   SUM >= 0;   lo < hi => SUM(lo,hi) = elem_len(lo) + SUM(lo+1,hi)
+      lo < hi => SUM(lo,hi) = SUM(lo,hi-1) + elem_len(hi-1);   lo<=m<=hi => SUM(lo,hi)=SUM(lo,m)+SUM(m,hi)"""
+    __slots__ = ("name", "lo", "hi", "elem", "elem_len", "_sum", "const", "params")
+    J = z3.Int("J!bc")
+
+    def __init__(self, name, lo, hi, elem, elem_len, params=()):
+        self.name = name
+        self.params = tuple(params)
+        self.lo = _simp(_t(lo))
+        self.hi = _simp(_t(hi))
+        self.elem = elem
+        self.elem_len = elem_len
+        lj = _simp(_t(elem_len(BC.J)))
+        self.const = _cval(lj)
+        sig = lj.sexpr()
+        self._sum = sumfn(sig)
+        self._facts(self.lo, self.hi)
+
+    def _facts(self, lo, hi):
+        c = cur()
+        S = self._sum
+        if self.const is not None:
+            c.fact(S(lo, hi) == z3.If(hi > lo, self.const * (hi - lo), 0))
+        else:
+            c.fact(S(lo, hi) >= 0)
+            c.fact(z3.Implies(hi <= lo, S(lo, hi) == 0))
+            hi1 = _simp(hi - 1)
+            lo1 = _simp(lo + 1)
+            el_last = _t(self.elem_len(hi1))
+            el_first = _t(self.elem_len(lo))
+            c.fact(z3.Implies(lo < hi, z3.And(S(lo, hi) == S(lo, hi1) + el_last, el_last >= 0, S(lo, hi1) >= 0)))
+            c.fact(z3.Implies(lo < hi, z3.And(S(lo, hi) == el_first + S(lo1, hi), el_first >= 0, S(lo1, hi) >= 0)))
+
+    @property
+    def len(self):
+        return self._sum(self.lo, self.hi)
+
+    def key(self):
+        return "BC:%s{%s}(%s,%s)" % (self.name, ",".join(arg_key(p) for p in self.params), _k(self.lo), _k(self.hi))
+
+    def same_fn(self, o):
+        if self.name != o.name or len(self.params) != len(o.params):
+            return False
+        return all(args_provably_equal(p, q) for p, q in zip(self.params, o.params))
+
+    def byte(self, j):
+        raise Undecided("byte of an un-unfolded BigConcat")
+
+    def sub(self, lo, hi):
+        return None
+
+    def with_bounds(self, lo, hi):
+        return BC(self.name, lo, hi, self.elem, self.elem_len, self.params)
+
+    def first(self):
+        """(elem(lo) segments, BC(lo+1, hi)); caller guarantees lo < hi"""
+        c = cur()
+        lo1 = _simp(self.lo + 1)
+        el = _t(self.elem_len(self.lo))
+        c.fact(el >= 0)
+        c.fact(z3.Implies(self.lo < self.hi, self._sum(self.lo, self.hi) == el + self._sum(lo1, self.hi)))
+        head = Rope.of(self.elem(SInt(self.lo)))
+        c.fact(head.length_term() == el)
+        return head.segs, self.with_bounds(lo1, self.hi)
+
+    def last(self):
+        """(BC(lo, hi-1), elem(hi-1) segments); caller guarantees lo < hi"""
+        c = cur()
+        hi1 = _simp(self.hi - 1)
+        el = _t(self.elem_len(hi1))
+        c.fact(el >= 0)
+        c.fact(z3.Implies(self.lo < self.hi, self._sum(self.lo, self.hi) == self._sum(self.lo, hi1) + el))
+        tail = Rope.of(self.elem(SInt(hi1)))
+        c.fact(tail.length_term() == el)
+        return self.with_bounds(self.lo, hi1), tail.segs
+
+    def split_fact(self, mid):
+        c = cur()
+        mid = _simp(_t(mid))
+        S = self._sum
+        c.fact(z3.Implies(z3.And(self.lo <= mid, mid <= self.hi),
+                          S(self.lo, self.hi) == S(self.lo, mid) + S(mid, self.hi)))
+
+
+SUMFN = {}
+
+
+def sumfn(sig):
+    f = SUMFN.get(sig)
+    if f is None:
+        f = z3.Function("SUM|%d" % len(SUMFN), z3.IntSort(), z3.IntSort(), z3.IntSort())
+        SUMFN[sig] = f
+    return f
+
+
+def bigcat(name, lo, hi, elem, elem_len, params=()):
+    return Rope([BC(name, lo, hi, elem, elem_len, params)])
+
+
 def arg_key(a):
     if isinstance(a, Rope):
         return a.key()
@@ -244,12 +348,13 @@ def arg_key(a):
 # ---------------------------------------------------------------------------------------
 class Rope:
     _pyvc_symbolic = True
-    __slots__ = ("segs", "text", "_key")
+    __slots__ = ("segs", "text", "_key", "_unfolds")
 
     def __init__(self, segs, text=False):
         self.text = text
         self.segs = _normalise(list(segs))
         self._key = None
+        self._unfolds = 0
 
     # construction ------------------------------------------------------------------
     @staticmethod
@@ -327,6 +432,15 @@ class Rope:
             if c.branch(pos >= end):
                 off = end
                 continue
+            if isinstance(s, BC):
+                # strictly inside a BigConcat: unfold its first element and go on
+                head, rest = s.first()
+                r2 = Rope(segs[:i] + list(head) + [rest] + segs[i + 1:], self.text)
+                depth = getattr(self, "_unfolds", 0) + 1
+                if depth > 6:
+                    raise Undecided("position deep inside a BigConcat")
+                r2._unfolds = depth
+                return r2.split_at(pos)
             rel = _simp(pos - off)
             a, b = _split_seg(s, rel)
             return Rope(segs[:i] + [a], self.text), Rope([b] + segs[i + 1:], self.text)
@@ -372,6 +486,9 @@ class Rope:
             end = _simp(off + s.len)
             if c.branch(t < end):
                 rel = _simp(t - off)
+                if isinstance(s, BC):
+                    left, right = self.split_at(SInt(t))
+                    return right.byte_at(0)
                 if isinstance(s, (K, BE)) and _cval(rel) is None:
                     # enumerate the offsets of a short literal/integer field
                     L = _cval(s.len)
@@ -601,7 +718,12 @@ def _normalise(segs):
         else:
             segs2 = [s]
         for x in segs2:
-            lv = _cval(x.len)
+            if isinstance(x, BC):
+                if _k(x.lo) == _k(x.hi):
+                    continue
+                lv = None
+            else:
+                lv = _cval(x.len)
             if lv == 0:
                 continue
             if isinstance(x, Sl):
@@ -615,6 +737,12 @@ def _normalise(segs):
                     continue
                 if isinstance(p, Z) and isinstance(x, Z) and p.val == x.val:
                     out[-1] = Z(_simp(p.n + x.n), p.val)
+                    continue
+                if isinstance(p, BC) and isinstance(x, BC) and p.key().split('(')[0] == x.key().split('(')[0] and _k(p.hi) == _k(x.lo):
+                    p.split_fact(p.hi) if False else None
+                    m = p.with_bounds(p.lo, x.hi)
+                    m.split_fact(p.hi)
+                    out[-1] = m
                     continue
                 if isinstance(p, Sl) and isinstance(x, Sl) and p.base.key() == x.base.key() \
                         and _k(p.hi) == _k(x.lo):
@@ -639,8 +767,45 @@ def provably_equal(A, B):
         return False
     X = list(A.segs)
     Y = list(B.segs)
+    guard = 0
     while X and Y:
         a, b = X[0], Y[0]
+        guard += 1
+        if guard > 400:
+            return False
+        if isinstance(a, BC) or isinstance(b, BC):
+            if isinstance(a, BC) and isinstance(b, BC) and a.same_fn(b) and c.valid(a.lo == b.lo):
+                if c.valid(a.hi == b.hi):
+                    X.pop(0)
+                    Y.pop(0)
+                    continue
+                if c.valid(a.hi < b.hi):
+                    b.split_fact(a.hi)
+                    Y[0] = b.with_bounds(a.hi, b.hi)
+                    X.pop(0)
+                    continue
+                if c.valid(b.hi < a.hi):
+                    a.split_fact(b.hi)
+                    X[0] = a.with_bounds(b.hi, a.hi)
+                    Y.pop(0)
+                    continue
+                return False
+            done = False
+            for Z_ in (X, Y):
+                z_ = Z_[0]
+                if isinstance(z_, BC):
+                    if c.valid(z_.hi <= z_.lo):
+                        Z_.pop(0)
+                        done = True
+                        break
+                    if c.valid(z_.lo < z_.hi) and guard < 40:
+                        head, rest = z_.first()
+                        Z_[0:1] = list(head) + [rest]
+                        done = True
+                        break
+            if not done:
+                return False
+            continue
         if c.valid(a.len == b.len):
             if not _seg_provably_eq(a, b):
                 return False
@@ -695,6 +860,8 @@ def _seg_provably_eq(a, b):
         return _seg_provably_eq(a.base, b.base) and c.valid(z3.And(a.lo == b.lo, a.hi == b.hi))
     if isinstance(a, F) and isinstance(b, F) and a.f == b.f and len(a.args) == len(b.args):
         return all(args_provably_equal(x, y) for x, y in zip(a.args, b.args))
+    if isinstance(a, BC) and isinstance(b, BC) and a.same_fn(b):
+        return c.valid(z3.And(a.lo == b.lo, a.hi == b.hi))
     return False
 
 
@@ -753,8 +920,23 @@ def _align(A, B):
     A = list(A)
     B = list(B)
     atoms = []
+    unfolds = 0
     while A and B:
         a, b = A[0], B[0]
+        if isinstance(a, BC) or isinstance(b, BC):
+            r = _align_bc(A, B)
+            if r is True:
+                continue
+            if isinstance(r, tuple):
+                atoms.append(r[1])
+                continue
+            if r is False:
+                atoms.append(False)
+                return atoms
+            unfolds += 1
+            if unfolds > 8:
+                raise Undecided("too many BigConcat unfoldings in an equality")
+            continue
         la, lb = a.len, b.len
         if c.valid(la == lb):
             atoms.append(_atom_eq(a, b))
@@ -782,6 +964,58 @@ def _align(A, B):
             A[0] = a2
     # leftovers have length 0 (total lengths are equal)
     return atoms
+
+
+def _align_bc(A, B):
+    """one alignment step when a head is a BigConcat (mutates A, B); True: consumed/advanced"""
+    c = cur()
+    a, b = A[0], B[0]
+    if isinstance(a, BC) and isinstance(b, BC) and a.same_fn(b):
+        if c.valid(a.lo == b.lo):
+            if c.valid(a.hi == b.hi):
+                A.pop(0)
+                B.pop(0)
+                return True
+            if c.valid(a.hi < b.hi):
+                b.split_fact(a.hi)
+                B[0] = b.with_bounds(a.hi, b.hi)
+                A.pop(0)
+                return True
+            if c.valid(b.hi < a.hi):
+                a.split_fact(b.hi)
+                A[0] = a.with_bounds(b.hi, a.hi)
+                B.pop(0)
+                return True
+    if isinstance(a, BC) and isinstance(b, BC) and a.name == b.name and len(a.params) == len(b.params) \
+            and c.valid(z3.And(a.lo == b.lo, a.hi == b.hi)):
+        # same element function up to its parameters: equal parameters are sufficient (congruence)
+        conj = []
+        for x, y in zip(a.params, b.params):
+            e = _arg_eq(x, y)
+            if e is False:
+                conj = None
+                break
+            if e is not True:
+                conj.append(e)
+        A.pop(0)
+        B.pop(0)
+        at = _atom(a, b)
+        if conj is None:
+            return ("atom", z3.Or(a.hi <= a.lo, at))
+        return ("atom", z3.Or(z3.And(*conj) if conj else z3.BoolVal(True), a.hi <= a.lo, at))
+    for X in (A, B):
+        x = X[0]
+        if isinstance(x, BC):
+            if c.valid(x.hi <= x.lo):
+                X.pop(0)
+                return True
+            if c.branch(x.lo < x.hi):
+                head, rest = x.first()
+                X[0:1] = list(head) + [rest]
+            else:
+                X.pop(0)
+            return None
+    return None
 
 
 def _atom_eq(a, b):
